@@ -337,3 +337,56 @@ pub fn c14_wrapped_encoded_clone_onto_shorter() {
 pub fn c14_wrapped_encoded_clone_onto_longer() {
     wrapped_encoded(Some(4));
 }
+
+// @h prop=C14 tier=quick kind=proof inst="ReadSlice<MirrorRegion<u8>>: an EMPTY item (region-backed, between neighbours; and owned-borrowed) cloned onto a NON-EMPTY target" bounds="region holds items of 1, 0, 2 symbolic bytes; targets of 2 and 1 symbolic bytes" desc="clone_onto(x, t) leaves t == into_owned(x) == the empty vector, whatever t held before"
+#[cfg_attr(kani, kani::proof, kani::unwind(7))]
+pub fn c14_slice_clone_onto_from_empty_item() {
+    let a = Bytes::<3>::any_len(1);
+    let e = Bytes::<3>::any_len(0);
+    let b = Bytes::<3>::any_len(2);
+    let mut r = SR::default();
+    let _ = r.push(a.as_slice());
+    let ie = r.push(e.as_slice());
+    let _ = r.push(b.as_slice());
+    let x = r.index(ie);
+    let mut t = target(2);
+    x.clone_onto(&mut t);
+    assert!(t.is_empty(), "C14: clone_onto of an empty item leaves the target's previous contents in place");
+    let empty: Vec<u8> = Vec::new();
+    let y = <SR as Region>::ReadItem::borrow_as(&empty);
+    let mut t2 = target(1);
+    y.clone_onto(&mut t2);
+    assert!(t2.is_empty(), "C14: clone_onto of an empty borrowed item leaves the target's previous contents in place");
+    assert!(x.into_owned().is_empty(), "C14: into_owned of an empty item is not empty");
+    cover!(true, "end reached");
+    sym::forget(r);
+    sym::forget((t, t2));
+}
+
+// @h prop=C14 tier=quick kind=proof inst="ReadColumns<MirrorRegion<u8>>, &[u8] (OwnedRegion<u8>), &str (StringRegion): an EMPTY item cloned onto a NON-EMPTY target" bounds="each region holds a non-empty item, the empty item, a non-empty item; targets of 2 symbolic bytes / a 2-byte string" desc="clone_onto(x, t) leaves t empty"
+#[cfg_attr(kani, kani::proof, kani::unwind(7))]
+pub fn c14_clone_onto_from_empty_item_other_regions() {
+    let a = Bytes::<3>::any_len(2);
+    let mut c = CR::default();
+    let _ = c.push(a.as_slice());
+    let ie = c.push([0u8; 0].as_slice());
+    let _ = c.push(a.as_slice());
+    let mut t = target(2);
+    c.index(ie).clone_onto(&mut t);
+    assert!(t.is_empty(), "C14: clone_onto of an empty row leaves the target's previous contents in place");
+    let mut o = OwnedRegion::<u8>::default();
+    let _ = o.push(a.as_slice());
+    let ie = o.push([0u8; 0].as_slice());
+    let mut t2 = target(2);
+    o.index(ie).clone_onto(&mut t2);
+    assert!(t2.is_empty(), "C14: clone_onto of an empty slice leaves the target's previous contents in place");
+    let mut s = <StringRegion>::default();
+    let _ = s.push("ab");
+    let ie = s.push("");
+    let mut t3 = String::from("xy");
+    s.index(ie).clone_onto(&mut t3);
+    assert!(t3.is_empty(), "C14: clone_onto of an empty string leaves the target's previous contents in place");
+    cover!(true, "end reached");
+    sym::forget((c, o, s));
+    sym::forget((t, t2, t3));
+}
